@@ -138,7 +138,9 @@ def headers_guess(rows):
   # Find the first row with non-empty fields.
   data_offset, header = find_first_non_empty_row(rows)
   if not header:
-    return data_offset, header
+    # There are no rows, or the first row is a blank line: no header, but the rows that follow
+    # still determine the number of columns.
+    return data_offset, expand_headers(header, data_offset, rows)
 
   # Let's see if row is really a header.
   if not _is_header(header, itertools.islice(rows, data_offset, None)):
